@@ -293,7 +293,9 @@ func cmdCheck(args []string) int {
 	// second chance with a three times longer timeout for whatever is still undecided (solver run-time varies with
 	// load; an undecided obligation must not become an alarm because the machine was busy)
 	// (obligations recorded as known findings are expected to fail and are not retried)
-	retry := func(o *Obligation) bool { return pick(o) && o.Expect == "unsat" && o.Status == "undecided" && isKnown(o) == nil }
+	retry := func(o *Obligation) bool {
+		return pick(o) && o.Expect == "unsat" && o.Status == "undecided" && isKnown(o) == nil
+	}
 	nretry := 0
 	for _, fr := range frs {
 		for _, o := range fr.Obligations {
